@@ -97,7 +97,7 @@ def _c16_hybrid(a, col):
     col.extra["contract_evaluations"] = dict(contracts.COUNT)
 
 
-_C08_PROG = {"profile": "levels", "oracles": [_o2("judge_c08")], "opts": {"approx_ops": False}}
+_C08_PROG = {"profile": "levels", "oracles": [_o2("judge_c08")], "opts": {"approx_ops": False, "near_basis": True}}
 _C10_PROG = {"profile": "resize", "oracles": [_o2("judge_resize"), _o2("judge_truncation")],
              "opts": {"env_max": 2, "cus_max": 1, "fock_types": ["Displace", "Squeeze", "Creation", "Annihilation", "PhaseShift", "Custom"]}}
 _C11_PROG = {"profile": "optics", "oracles": [_o2("judge_c11")],
